@@ -6,7 +6,8 @@ functions; one event per demographic-machine action is logged with the exact arg
 TLC replays the events through the DemoMachine state machine and decides every clause: well-formedness,
 arity, output shape / finite / non-negative / extrap_x, Norm(trace A) = Norm(trace B) for nesting pairs
 (and then equality of the recorded spectra), parameter influence, label-swap equivariance as a refinement
-relation between two time-step scales.  Nothing is judged here.
+relation between two time-step scales.  The same relations are evaluated at tied parameter vectors (tie_groups: exactly
+equal sizes / durations / rates, one rate exactly 0), which a generic draw never produces.  Nothing is judged here.
 """
 import copy, hashlib, inspect, itertools, json, math, os, random, sys
 import numpy as np
@@ -946,7 +947,9 @@ def run(ctx):
         'Norm(A) = Norm(B) means the same sequence of numerically effective primitive calls with the same arguments; the recorded spectra are then compared at 1e-10 of the largest entry',
         'swap equivariance is judged as a refinement: the asymmetry at timescale_factor 1.5625e-5 must be <= 1/4 of that at 2.5e-4 (+1e-10 of the largest entry); '
         'calibrated: true symmetries <= 0.13, relabellings that are not symmetries >= 0.35 (typically 1.0)',
-        'parameters are sampled inside the documented bounds (seeded); each sampled case is decided exactly by TLC'])
+        'parameters are sampled inside the documented bounds (seeded); each sampled case is decided exactly by TLC',
+        'the non-generic points of the bounds (several parameters of one class exactly equal, one rate exactly 0) are visited by a deterministic block in the regime of the '
+        'swap calibration (nu in [0.5,3], T in [0.02,0.06], m in [0.3,1.5]); all sizes tied means ALL of them, not every pairwise pattern'])
     groups = gen_groups(ctx, rng)
     traces, verdicts, st = validate(groups)
     # binding demonstration
@@ -976,7 +979,8 @@ def run(ctx):
                    '(full clause set, every parameter perturbed in turn, arity probes), nesting pairs of the curated table (five documented kinds), label swaps at two '
                    'time-step scales, boundary groups (per model: integer-valued values as tuple of floats / numpy array of float64 / list with ints, all durations 0 as int and '
                    'as numpy.float64, nu = 1e-2 & m = 0, nu = 100 & m = 10 judged on the fine grid, fractions 1e-3 / 0.999, all-equal values with equal sample sizes, '
-                   'durations 3), nesting pairs with every free size / rate / fraction at an end point of its range; '
+                   'durations 3), nesting pairs with every free size / rate / fraction at an end point of its range, tied parameter vectors (exactly equal sizes / '
+                   'durations / rates / selection, one rate exactly 0: swap refinement for every model of the swap table, nestings, full clause set for the other models); '
                    'non-trivial = distinct (group kind, model or pair, nesting point, relabelling)')
     cov['trace_validation'] = {'spec': TRACE_SPEC, 'groups': len(groups), 'groups_by_kind': kinds, 'events': nev, 'model_evaluations': nevals,
                                'tlc_states': st['states'], 'wall_s': round(st['wall'], 1), 'groups_rejected': len(verdicts)}
@@ -986,6 +990,12 @@ def run(ctx):
     cov['boundary_records'] = {'edge_groups': kinds.get('edge', 0), 'edge_evaluations': sum(len(g['evals']) for g in groups if g['kind'] == 'edge'),
                                'corner_nestings': sum(1 for g in groups if g.get('corner')),
                                'bounds': {'nu': [NU_LO, NU_HI], 'T': [0, T_HI], 'm': [0, M_HI], 'fractions': [FR_LO, FR_HI]}}
+    ties = [g for g in groups if g.get('tie')]
+    cov['tied_parameter_vectors'] = {'groups': len(ties), 'by_kind_and_variant': {'%s/%s' % (k, v): sum(1 for g in ties if (g['kind'], g['tie']) == (k, v))
+                                                                                  for k, v in sorted({(g['kind'], g['tie']) for g in ties})},
+                                     'generator': 'random.Random(seed + 1500)', 'site_suffix': '@ties',
+                                     'calibration': '2026-10-04, clean tree, 1004 tied swap groups (79 relabellings x 4 variants x 4 draws): contraction <= 0.133 where the '
+                                                    'asymmetry exceeds the floor; 236 groups at round-off (<= 2.3e-14 of the largest entry)'}
     cov['binding_demo'] = {'mutated_traces': len(muts), 'rejected_with_expected_clause': len(muts) - len(missed), 'clauses': sorted({c for _, c in muts})}
     cov['samples'] = [common._shorten(e) for e in traces[len(traces) // 2][:4]]
     return res
